@@ -171,7 +171,8 @@ Theorem send_fields_record : forall mtu o sq tok inface mark wire,
              (concat (m_cs m) = wire /\ m_cs m <> [])).
 Proof.
   intros mtu o sq tok inface mark wire Hmtu Htok Hw Hsq.
-  unfold send_fields. fold (single_frame_fits mtu o tok inface mark wire).
+  unfold send_fields, send_fields_h. fold (single_frame_fits mtu o tok inface mark wire).
+  fold (effective_mtu mtu o tok mark).
   destruct (single_frame_fits mtu o tok inface mark wire) eqn:Efit.
   { exists (mkM sq false [wire] tok (if o_ifi o then inface else None) mark). cbn [fst m_cs m_tok m_mark m_base m_inface].
     split; [reflexivity|]. split.
@@ -183,7 +184,7 @@ Proof.
       repeat split; try reflexivity. left. repeat split; reflexivity. }
   pose proof (token_len_le tok Htok) as Ht. pose proof (consts_header_small true (o_ifi o)) as Hh. pose proof consts_mark as Hm.
   assert (Heff : (32 <= effective_mtu mtu o tok mark)%Z).
-  { unfold effective_mtu. rewrite Efr. destruct mark; lia. }
+  { unfold effective_mtu, effective_mtu_h, compute_header_overhead. rewrite Efr. destruct mark; lia. }
   set (eff := effective_mtu mtu o tok mark) in *.
   replace (eff <=? 0)%Z with false by lia.
   set (n := ((zlen wire + eff - 1) / eff)%Z).
